@@ -1229,6 +1229,12 @@ impl<S: Sut> World<S> {
             kc |= 1 << i;
             applied.push(i);
             self.st.ev("law_followup");
+            if S::IS_MAP && !self.t7_fired {
+                let kf = self.facts_of(kc);
+                if crate::taint::r7_state(&kf, &self.facts, &|id| kc >> id & 1 == 1) {
+                    self.t7_fired = true;
+                }
+            }
             let (ox, oy) = (x.observe(), y.observe());
             if ox.reads != oy.reads {
                 // the verdict depends on the follow-up ops too: they belong to the knowledge set of the violation
@@ -1249,6 +1255,17 @@ impl<S: Sut> World<S> {
         let (b, kb) = self.pool[j % n].clone();
         let (c, kc) = self.pool[k3 % n].clone();
         self.merged = true;
+        if S::IS_MAP && !self.t7_fired {
+            // the merges evaluated by this probe pass through these knowledge sets: the schedule-level R7
+            // trigger must be evaluated on them too (operands may be partially fed observers)
+            for ku in [ka | kb, kb | kc, ka | kc, ka | kb | kc] {
+                let kf = self.facts_of(ku);
+                if crate::taint::r7_state(&kf, &self.facts, &|id| ku >> id & 1 == 1) {
+                    self.t7_fired = true;
+                    break;
+                }
+            }
+        }
         let kind = kind % 4;
         self.lg(format!("{step}: law{kind} on pool states {} {} {} (K={ka:#x},{kb:#x},{kc:#x})", i % n, j % n, k3 % n));
         let ob = |s: &S| s.observe();
